@@ -6,6 +6,41 @@ set_option linter.unusedSimpArgs false
 namespace CffiVerif.IntPaths
 open CffiVerif.CInt CffiVerif.Generated
 
+/-- hand-written reading of `_cffi_to_c__Bool` (the model uses the extracted chain; `toCBool_eq_hand`) -/
+def toCBoolHand (v : Int) : Int × Pending :=
+  let (tmp, err) := myAsLongLong v
+  if tmp = 0 then (0, err)
+  else if tmp = 1 then (1, err)
+  else match err with
+    | some e => (1, some e)            -- `(_Bool)-1`
+    | none => (1, some .overflow)      -- `(_Bool)_convert_overflow(obj, "_Bool")`
+
+/-- hand-written reading of the emitted argument code (the model uses the extracted check; `apiArg_eq_hand`):
+`if (x0 == (type)-1 && PyErr_Occurred()) return NULL;`.  Result: the object
+representation of the argument the C function is called with. -/
+def apiArgHand (T : IntType) (v : Int) : Except ErrKind (List UInt8) :=
+  match T.kind with
+  | .signed | .unsigned =>
+    match cffiToCInt T v with
+    | .error e => .error e
+    | .ok (x0, err) =>
+      match (if x0 = T.wrap (-1) then err else none) with
+      | some e => .error e
+      | none =>
+        match err with
+        | some _ => .error .systemError        -- the function is called with an exception set
+        | none => .ok (writeRaw x0 T.width)
+  | .bool =>
+    let (x0, err) := toCBoolHand v
+    match (if x0 = 1 then err else none) with   -- `(_Bool)-1` is 1
+    | some e => .error e
+    | none =>
+      match err with
+      | some _ => .error .systemError
+      | none => .ok (writeRaw x0 T.width)
+  | .char | .swchar => .error .typeError         -- `_cffi_to_c_char*`: an int is not a character
+
+
 theorem toInt_bv (x : Int) (h : -(2 ^ 63) ≤ x ∧ x < 2 ^ 63) : (bv x).toInt = x := by
   unfold bv
   rw [BitVec.toInt_ofInt]
@@ -91,11 +126,11 @@ theorem toCUnsigned_eq (N rb : Nat) (rs : Bool) (v : Int)
   exact congrArg Except.ok (toCBody_unsigned N rb rs v hmem)
 
 theorem apiArg_signed (name : String) (w : Width) (v : Int) :
-    apiArg ⟨name, w, .signed⟩ v =
+    apiArgHand ⟨name, w, .signed⟩ v =
       if -(2 ^ (w.bits - 1)) ≤ v ∧ v < 2 ^ (w.bits - 1) then .ok (writeRaw v w) else .error .overflow := by
   cases w
   · have h := toCSigned_eq 8 32 true v (by decide)
-    simp only [apiArg, cffiToCInt, IntMacros.dispatch, IntType.bytes, Width.bytes, IntType.readsSigned, retBits,
+    simp only [apiArgHand, cffiToCInt, calleeResult, IntMacros.dispatch, IntType.bytes, Width.bytes, IntType.readsSigned, retBits,
       IntMacros.signedFns, IntMacros.unsignedFns, h, List.find?, decide_true, decide_false, Option.map,
       ne_eq, not_true_eq_false, if_false, if_true, Width.bits, Nat.reduceMul, Nat.reduceSub, Int.reducePow, Int.reduceNeg,
       Nat.reduceEqDiff, Bool.false_eq_true, Nat.reducePow, Int.reduceSub]
@@ -107,7 +142,7 @@ theorem apiArg_signed (name : String) (w : Width) (v : Int) :
         simp [IntType.wrap, IntType.bits, IntType.readsSigned, Width.bits, Width.bytes, CInt.wrap, wrapS]
       simp [hr, e1]
   · have h := toCSigned_eq 16 32 true v (by decide)
-    simp only [apiArg, cffiToCInt, IntMacros.dispatch, IntType.bytes, Width.bytes, IntType.readsSigned, retBits,
+    simp only [apiArgHand, cffiToCInt, calleeResult, IntMacros.dispatch, IntType.bytes, Width.bytes, IntType.readsSigned, retBits,
       IntMacros.signedFns, IntMacros.unsignedFns, h, List.find?, decide_true, decide_false, Option.map,
       ne_eq, not_true_eq_false, if_false, if_true, Width.bits, Nat.reduceMul, Nat.reduceSub, Int.reducePow, Int.reduceNeg,
       Nat.reduceEqDiff, Bool.false_eq_true, Nat.reducePow, Int.reduceSub]
@@ -119,7 +154,7 @@ theorem apiArg_signed (name : String) (w : Width) (v : Int) :
         simp [IntType.wrap, IntType.bits, IntType.readsSigned, Width.bits, Width.bytes, CInt.wrap, wrapS]
       simp [hr, e1]
   · have h := toCSigned_eq 32 32 true v (by decide)
-    simp only [apiArg, cffiToCInt, IntMacros.dispatch, IntType.bytes, Width.bytes, IntType.readsSigned, retBits,
+    simp only [apiArgHand, cffiToCInt, calleeResult, IntMacros.dispatch, IntType.bytes, Width.bytes, IntType.readsSigned, retBits,
       IntMacros.signedFns, IntMacros.unsignedFns, h, List.find?, decide_true, decide_false, Option.map,
       ne_eq, not_true_eq_false, if_false, if_true, Width.bits, Nat.reduceMul, Nat.reduceSub, Int.reducePow, Int.reduceNeg,
       Nat.reduceEqDiff, Bool.false_eq_true, Nat.reducePow, Int.reduceSub]
@@ -131,7 +166,7 @@ theorem apiArg_signed (name : String) (w : Width) (v : Int) :
         simp [IntType.wrap, IntType.bits, IntType.readsSigned, Width.bits, Width.bytes, CInt.wrap, wrapS]
       simp [hr, e1]
   · have h := toCSigned_eq 64 64 true v (by decide)
-    simp only [apiArg, cffiToCInt, IntMacros.dispatch, IntType.bytes, Width.bytes, IntType.readsSigned, retBits,
+    simp only [apiArgHand, cffiToCInt, calleeResult, IntMacros.dispatch, IntType.bytes, Width.bytes, IntType.readsSigned, retBits,
       IntMacros.signedFns, IntMacros.unsignedFns, h, List.find?, decide_true, decide_false, Option.map,
       ne_eq, not_true_eq_false, if_false, if_true, Width.bits, Nat.reduceMul, Nat.reduceSub, Int.reducePow, Int.reduceNeg,
       Nat.reduceEqDiff, Bool.false_eq_true, Nat.reducePow, Int.reduceSub]
@@ -144,11 +179,11 @@ theorem apiArg_signed (name : String) (w : Width) (v : Int) :
       simp [hr, e1]
 
 theorem apiArg_unsigned (name : String) (w : Width) (v : Int) :
-    apiArg ⟨name, w, .unsigned⟩ v =
+    apiArgHand ⟨name, w, .unsigned⟩ v =
       if 0 ≤ v ∧ v < 2 ^ w.bits then .ok (writeRaw v w) else .error .overflow := by
   cases w
   · have h := toCUnsigned_eq 8 32 true v (by decide)
-    simp only [apiArg, cffiToCInt, IntMacros.dispatch, IntType.bytes, Width.bytes, IntType.readsSigned, retBits,
+    simp only [apiArgHand, cffiToCInt, calleeResult, IntMacros.dispatch, IntType.bytes, Width.bytes, IntType.readsSigned, retBits,
       IntMacros.signedFns, IntMacros.unsignedFns, h, List.find?, decide_true, decide_false, Option.map,
       ne_eq, not_true_eq_false, if_false, if_true, Width.bits, Nat.reduceMul, Nat.reduceSub, Int.reducePow, Int.reduceNeg,
       Nat.reduceEqDiff, Bool.false_eq_true, Nat.reducePow, Int.reduceSub]
@@ -160,7 +195,7 @@ theorem apiArg_unsigned (name : String) (w : Width) (v : Int) :
         simp [IntType.wrap, IntType.bits, IntType.readsSigned, Width.bits, Width.bytes, CInt.wrap, wrapS, wrapU]
       simp [hr, e1]
   · have h := toCUnsigned_eq 16 32 true v (by decide)
-    simp only [apiArg, cffiToCInt, IntMacros.dispatch, IntType.bytes, Width.bytes, IntType.readsSigned, retBits,
+    simp only [apiArgHand, cffiToCInt, calleeResult, IntMacros.dispatch, IntType.bytes, Width.bytes, IntType.readsSigned, retBits,
       IntMacros.signedFns, IntMacros.unsignedFns, h, List.find?, decide_true, decide_false, Option.map,
       ne_eq, not_true_eq_false, if_false, if_true, Width.bits, Nat.reduceMul, Nat.reduceSub, Int.reducePow, Int.reduceNeg,
       Nat.reduceEqDiff, Bool.false_eq_true, Nat.reducePow, Int.reduceSub]
@@ -172,7 +207,7 @@ theorem apiArg_unsigned (name : String) (w : Width) (v : Int) :
         simp [IntType.wrap, IntType.bits, IntType.readsSigned, Width.bits, Width.bytes, CInt.wrap, wrapS, wrapU]
       simp [hr, e1]
   · have h := toCUnsigned_eq 32 32 false v (by decide)
-    simp only [apiArg, cffiToCInt, IntMacros.dispatch, IntType.bytes, Width.bytes, IntType.readsSigned, retBits,
+    simp only [apiArgHand, cffiToCInt, calleeResult, IntMacros.dispatch, IntType.bytes, Width.bytes, IntType.readsSigned, retBits,
       IntMacros.signedFns, IntMacros.unsignedFns, h, List.find?, decide_true, decide_false, Option.map,
       ne_eq, not_true_eq_false, if_false, if_true, Width.bits, Nat.reduceMul, Nat.reduceSub, Int.reducePow, Int.reduceNeg,
       Nat.reduceEqDiff, Bool.false_eq_true, Nat.reducePow, Int.reduceSub]
@@ -184,7 +219,7 @@ theorem apiArg_unsigned (name : String) (w : Width) (v : Int) :
         simp [IntType.wrap, IntType.bits, IntType.readsSigned, Width.bits, Width.bytes, CInt.wrap, wrapS, wrapU]
       simp [hr, e1]
   · have h := toCUnsigned_eq 64 64 false v (by decide)
-    simp only [apiArg, cffiToCInt, IntMacros.dispatch, IntType.bytes, Width.bytes, IntType.readsSigned, retBits,
+    simp only [apiArgHand, cffiToCInt, calleeResult, IntMacros.dispatch, IntType.bytes, Width.bytes, IntType.readsSigned, retBits,
       IntMacros.signedFns, IntMacros.unsignedFns, h, List.find?, decide_true, decide_false, Option.map,
       ne_eq, not_true_eq_false, if_false, if_true, Width.bits, Nat.reduceMul, Nat.reduceSub, Int.reducePow, Int.reduceNeg,
       Nat.reduceEqDiff, Bool.false_eq_true, Nat.reducePow, Int.reduceSub]
@@ -196,9 +231,9 @@ theorem apiArg_unsigned (name : String) (w : Width) (v : Int) :
         simp [IntType.wrap, IntType.bits, IntType.readsSigned, Width.bits, Width.bytes, CInt.wrap, wrapS, wrapU]
       simp [hr, e1]
 
-theorem toCBool_eq (v : Int) :
-    toCBool v = if v = 0 then (0, none) else if v = 1 then (1, none) else (1, some .overflow) := by
-  unfold toCBool
+theorem toCBoolHand_closed (v : Int) :
+    toCBoolHand v = if v = 0 then (0, none) else if v = 1 then (1, none) else (1, some .overflow) := by
+  unfold toCBoolHand
   rcases myAsLongLong_cases v with ⟨h1, h2, e⟩ | ⟨h, e⟩
   · rw [e]
   · rw [e]
@@ -207,9 +242,9 @@ theorem toCBool_eq (v : Int) :
     simp [h0, h1]
 
 theorem apiArg_bool (name : String) (w : Width) (v : Int) :
-    apiArg ⟨name, w, .bool⟩ v =
+    apiArgHand ⟨name, w, .bool⟩ v =
       if 0 ≤ v ∧ v ≤ 1 then .ok (writeRaw v w) else .error .overflow := by
-  simp only [apiArg, toCBool_eq]
+  simp only [apiArgHand, toCBoolHand_closed]
   by_cases h0 : v = 0
   · subst h0; simp
   · by_cases h1 : v = 1
@@ -353,5 +388,274 @@ theorem prepareRawErr_some (T : IntType) (hT : T.isInt = true) (ev : Int) (encod
     rw [hp] at hr
     simp only at hr; subst hr
     simp [h, hp]
+
+/-- the extracted chain of `_cffi_to_c__Bool`, with `_convert_overflow` returning -1 -/
+theorem toCBoolBody_spec (tmp : BitVec 64) (err : Bool) :
+    CastExprs.toCBoolBody tmp err (BitVec.ofInt 32 (-1)) =
+      if tmp = 0#64 then (0#8, false) else if tmp = 1#64 then (1#8, false)
+      else if err then (1#8, false) else (1#8, true) := by
+  simp [CastExprs.toCBoolBody]
+
+theorem bv_eq_iff (x : Int) (c : Int) (hx : -(2 ^ 63) ≤ x ∧ x < 2 ^ 63) (hc : -(2 ^ 63) ≤ c ∧ c < 2 ^ 63) :
+    bv x = BitVec.ofInt 64 c ↔ x = c := by
+  constructor
+  · intro h
+    have := congrArg BitVec.toInt h
+    rw [toInt_bv x hx] at this
+    have h2 := toInt_bv c hc
+    unfold bv at h2
+    rw [h2] at this
+    exact this
+  · intro h; rw [h]; rfl
+
+theorem toCBool_eq_hand (v : Int) : toCBool v = .ok (toCBoolHand v) := by
+  have hc : convBy (CastExprs.toCBoolConv, false) v = .ok (myAsLongLong v) := by
+    simp [convBy, CastExprs.toCBoolConv]
+  unfold toCBool toCBoolHand
+  rw [hc]
+  rcases myAsLongLong_cases v with ⟨h1, h2, e⟩ | ⟨h, e⟩ <;> rw [e] <;> simp only [toCBoolBody_spec]
+  · have e0 : bv v = 0#64 ↔ v = 0 := bv_eq_iff v 0 ⟨h1, h2⟩ (by omega)
+    have e1 : bv v = 1#64 ↔ v = 1 := bv_eq_iff v 1 ⟨h1, h2⟩ (by omega)
+    by_cases h0 : v = 0
+    · subst h0
+      have : bv 0 = 0#64 := by decide
+      simp [this]
+    · by_cases h1' : v = 1
+      · subst h1'
+        have a : ¬ bv 1 = 0#64 := by decide
+        have b : bv 1 = 1#64 := by decide
+        simp [a, b]
+      · have n0 : ¬ bv v = 0#64 := fun h => h0 (e0.mp h)
+        have n1 : ¬ bv v = 1#64 := fun h => h1' (e1.mp h)
+        simp [h0, h1', n0, n1, convertOverflow]
+  · have n0 : ¬ bv (-1) = 0#64 := by decide
+    have n1 : ¬ bv (-1) = 1#64 := by decide
+    simp [n0, n1]
+theorem argErrS8_spec (x0 : BitVec 8) (e : Bool) : CastExprs.argErrS8 x0 e = ((x0 == -1#8) && e) := by
+  unfold CastExprs.argErrS8
+  congr 1
+  rw [Bool.eq_iff_iff]; simp only [beq_iff_eq]
+  rw [← BitVec.toInt_inj, ← BitVec.toInt_inj, BitVec.toInt_signExtend_of_le (by decide),
+    BitVec.toInt_signExtend_of_le (by decide)]
+  simp
+
+theorem argErrS16_spec (x0 : BitVec 16) (e : Bool) : CastExprs.argErrS16 x0 e = ((x0 == -1#16) && e) := by
+  unfold CastExprs.argErrS16
+  congr 1
+  rw [Bool.eq_iff_iff]; simp only [beq_iff_eq]
+  rw [← BitVec.toInt_inj, ← BitVec.toInt_inj, BitVec.toInt_signExtend_of_le (by decide),
+    BitVec.toInt_signExtend_of_le (by decide)]
+  simp
+
+theorem argErrS32_spec (x0 : BitVec 32) (e : Bool) : CastExprs.argErrS32 x0 e = ((x0 == -1#32) && e) := by
+  unfold CastExprs.argErrS32
+  congr 1
+
+theorem argErrS64_spec (x0 : BitVec 64) (e : Bool) : CastExprs.argErrS64 x0 e = ((x0 == -1#64) && e) := by
+  unfold CastExprs.argErrS64
+  congr 1
+
+theorem argErrU8_spec (x0 : BitVec 8) (e : Bool) : CastExprs.argErrU8 x0 e = ((x0 == -1#8) && e) := by
+  unfold CastExprs.argErrU8
+  congr 1
+  rw [Bool.eq_iff_iff]; simp only [beq_iff_eq]
+  constructor <;> intro h <;> bv_omega
+
+theorem argErrU16_spec (x0 : BitVec 16) (e : Bool) : CastExprs.argErrU16 x0 e = ((x0 == -1#16) && e) := by
+  unfold CastExprs.argErrU16
+  congr 1
+  rw [Bool.eq_iff_iff]; simp only [beq_iff_eq]
+  constructor <;> intro h <;> bv_omega
+
+theorem argErrU32_spec (x0 : BitVec 32) (e : Bool) : CastExprs.argErrU32 x0 e = ((x0 == -1#32) && e) := by
+  unfold CastExprs.argErrU32
+  congr 1
+
+theorem argErrU64_spec (x0 : BitVec 64) (e : Bool) : CastExprs.argErrU64 x0 e = ((x0 == -1#64) && e) := by
+  unfold CastExprs.argErrU64
+  congr 1
+
+theorem argErrBool_spec (x0 : BitVec 8) (e : Bool) : CastExprs.argErrBool x0 e = ((x0 == 1#8) && e) := by
+  unfold CastExprs.argErrBool
+  congr 1
+  rw [Bool.eq_iff_iff]; simp only [beq_iff_eq]
+  simp
+  constructor <;> intro h <;> bv_omega
+
+/-- the emitted check means `x0 == (type)-1 && PyErr_Occurred()` on the values of `T` -/
+theorem argCheck_spec (T : IntType) (hk : T.kind = .signed ∨ T.kind = .unsigned) (x0 : Int) (hx : T.InRange x0)
+    (e : Bool) : argCheck T x0 e = (decide (x0 = T.wrap (-1)) && e) := by
+  rcases T with ⟨n, w, k⟩
+  rcases hk with hk | hk <;> simp only at hk <;> subst hk <;> cases w
+  · simp only [argCheck, argErrS8_spec]
+    congr 1
+    rw [Bool.eq_iff_iff]; simp only [beq_iff_eq, decide_eq_true_eq]
+    simp [IntType.InRange, IntType.lo, IntType.hi, IntType.bits, Width.bits, Width.bytes] at hx
+    simp only [IntType.wrap, CInt.wrap, IntType.readsSigned, IntType.bits, Width.bits, Width.bytes, wrapS, wrapU]
+    constructor
+    · intro h
+      have := congrArg BitVec.toNat h
+      simp [BitVec.toNat_ofInt] at this
+      simp; omega
+    · intro h
+      have h' : x0 = -1 := by simp at h; omega
+      subst h'; decide
+  · simp only [argCheck, argErrS16_spec]
+    congr 1
+    rw [Bool.eq_iff_iff]; simp only [beq_iff_eq, decide_eq_true_eq]
+    simp [IntType.InRange, IntType.lo, IntType.hi, IntType.bits, Width.bits, Width.bytes] at hx
+    simp only [IntType.wrap, CInt.wrap, IntType.readsSigned, IntType.bits, Width.bits, Width.bytes, wrapS, wrapU]
+    constructor
+    · intro h
+      have := congrArg BitVec.toNat h
+      simp [BitVec.toNat_ofInt] at this
+      simp; omega
+    · intro h
+      have h' : x0 = -1 := by simp at h; omega
+      subst h'; decide
+  · simp only [argCheck, argErrS32_spec]
+    congr 1
+    rw [Bool.eq_iff_iff]; simp only [beq_iff_eq, decide_eq_true_eq]
+    simp [IntType.InRange, IntType.lo, IntType.hi, IntType.bits, Width.bits, Width.bytes] at hx
+    simp only [IntType.wrap, CInt.wrap, IntType.readsSigned, IntType.bits, Width.bits, Width.bytes, wrapS, wrapU]
+    constructor
+    · intro h
+      have := congrArg BitVec.toNat h
+      simp [BitVec.toNat_ofInt] at this
+      simp; omega
+    · intro h
+      have h' : x0 = -1 := by simp at h; omega
+      subst h'; decide
+  · simp only [argCheck, argErrS64_spec]
+    congr 1
+    rw [Bool.eq_iff_iff]; simp only [beq_iff_eq, decide_eq_true_eq]
+    simp [IntType.InRange, IntType.lo, IntType.hi, IntType.bits, Width.bits, Width.bytes] at hx
+    simp only [IntType.wrap, CInt.wrap, IntType.readsSigned, IntType.bits, Width.bits, Width.bytes, wrapS, wrapU]
+    constructor
+    · intro h
+      have := congrArg BitVec.toNat h
+      simp [BitVec.toNat_ofInt] at this
+      simp; omega
+    · intro h
+      have h' : x0 = -1 := by simp at h; omega
+      subst h'; decide
+  · simp only [argCheck, argErrU8_spec]
+    congr 1
+    rw [Bool.eq_iff_iff]; simp only [beq_iff_eq, decide_eq_true_eq]
+    simp [IntType.InRange, IntType.lo, IntType.hi, IntType.bits, Width.bits, Width.bytes] at hx
+    simp only [IntType.wrap, CInt.wrap, IntType.readsSigned, IntType.bits, Width.bits, Width.bytes, wrapS, wrapU]
+    constructor
+    · intro h
+      have := congrArg BitVec.toNat h
+      simp [BitVec.toNat_ofInt] at this
+      simp; omega
+    · intro h
+      have h' : x0 = 255 := by simp at h; omega
+      subst h'; decide
+  · simp only [argCheck, argErrU16_spec]
+    congr 1
+    rw [Bool.eq_iff_iff]; simp only [beq_iff_eq, decide_eq_true_eq]
+    simp [IntType.InRange, IntType.lo, IntType.hi, IntType.bits, Width.bits, Width.bytes] at hx
+    simp only [IntType.wrap, CInt.wrap, IntType.readsSigned, IntType.bits, Width.bits, Width.bytes, wrapS, wrapU]
+    constructor
+    · intro h
+      have := congrArg BitVec.toNat h
+      simp [BitVec.toNat_ofInt] at this
+      simp; omega
+    · intro h
+      have h' : x0 = 65535 := by simp at h; omega
+      subst h'; decide
+  · simp only [argCheck, argErrU32_spec]
+    congr 1
+    rw [Bool.eq_iff_iff]; simp only [beq_iff_eq, decide_eq_true_eq]
+    simp [IntType.InRange, IntType.lo, IntType.hi, IntType.bits, Width.bits, Width.bytes] at hx
+    simp only [IntType.wrap, CInt.wrap, IntType.readsSigned, IntType.bits, Width.bits, Width.bytes, wrapS, wrapU]
+    constructor
+    · intro h
+      have := congrArg BitVec.toNat h
+      simp [BitVec.toNat_ofInt] at this
+      simp; omega
+    · intro h
+      have h' : x0 = 4294967295 := by simp at h; omega
+      subst h'; decide
+  · simp only [argCheck, argErrU64_spec]
+    congr 1
+    rw [Bool.eq_iff_iff]; simp only [beq_iff_eq, decide_eq_true_eq]
+    simp [IntType.InRange, IntType.lo, IntType.hi, IntType.bits, Width.bits, Width.bytes] at hx
+    simp only [IntType.wrap, CInt.wrap, IntType.readsSigned, IntType.bits, Width.bits, Width.bytes, wrapS, wrapU]
+    constructor
+    · intro h
+      have := congrArg BitVec.toNat h
+      simp [BitVec.toNat_ofInt] at this
+      simp; omega
+    · intro h
+      have h' : x0 = 18446744073709551615 := by simp at h; omega
+      subst h'; decide
+
+theorem argCheck_bool (T : IntType) (hk : T.kind = .bool) (x0 : Int) (hx : x0 = 0 ∨ x0 = 1) (e : Bool) :
+    argCheck T x0 e = (decide (x0 = 1) && e) := by
+  rcases T with ⟨n, w, k⟩
+  simp only at hk; subst hk
+  simp only [argCheck, argErrBool_spec]
+  rcases hx with rfl | rfl <;> simp
+
+theorem wrap_inRange (T : IntType) (hb : T.kind ≠ .bool) (x : Int) : T.InRange (T.wrap x) := by
+  rcases T with ⟨n, w, k⟩
+  cases k <;> cases w <;>
+    simp [IntType.InRange, IntType.lo, IntType.hi, IntType.wrap, CInt.wrap, IntType.readsSigned, IntType.bits,
+      Width.bits, Width.bytes, wrapS, wrapU] at hb ⊢ <;> omega
+
+theorem cffiToCInt_inRange (T : IntType) (hb : T.kind ≠ .bool) (v x0 : Int) (err : Pending)
+    (h : cffiToCInt T v = .ok (x0, err)) : T.InRange x0 := by
+  unfold cffiToCInt at h
+  split at h
+  · cases h
+  · rename_i _ cu cs _
+    generalize (if T.readsSigned = true then cs else cu) = c at h
+    unfold calleeResult at h
+    by_cases hr : retBits c.1 c.2.1 ≠ some c.2.2.1
+    · rw [if_pos hr] at h; cases h
+    · rw [if_neg hr] at h
+      cases hm : (if c.1 = true then toCSigned c.2.1 v else toCUnsigned c.2.1 v) with
+      | error e => rw [hm] at h; cases h
+      | ok p =>
+        rw [hm] at h
+        rcases p with ⟨r, e'⟩
+        simp only [Except.ok.injEq, Prod.mk.injEq] at h
+        rw [← h.1]
+        exact wrap_inRange T hb _
+
+/-- the model over the extracted check and chain is the hand-written reading of the emitted code -/
+theorem apiArg_eq_hand (T : IntType) (v : Int) : apiArg T v = apiArgHand T v := by
+  rcases hk : T.kind with _ | _ | _ | _ | _
+  · -- signed
+    have hb : T.kind ≠ .bool := by rw [hk]; simp
+    simp only [apiArg, apiArgHand, hk]
+    cases hc : cffiToCInt T v with
+    | error e => rfl
+    | ok p =>
+      rcases p with ⟨x0, err⟩
+      have hr := cffiToCInt_inRange T hb v x0 err hc
+      simp only [argCheck_spec T (Or.inl hk) x0 hr]
+      by_cases hx : x0 = T.wrap (-1) <;> cases err <;> simp [hx]
+  · have hb : T.kind ≠ .bool := by rw [hk]; simp
+    simp only [apiArg, apiArgHand, hk]
+    cases hc : cffiToCInt T v with
+    | error e => rfl
+    | ok p =>
+      rcases p with ⟨x0, err⟩
+      have hr := cffiToCInt_inRange T hb v x0 err hc
+      simp only [argCheck_spec T (Or.inr hk) x0 hr]
+      by_cases hx : x0 = T.wrap (-1) <;> cases err <;> simp [hx]
+  · simp only [apiArg, apiArgHand, hk, toCBool_eq_hand]
+    have hx : (toCBoolHand v).1 = 0 ∨ (toCBoolHand v).1 = 1 := by
+      rw [toCBoolHand_closed]; split <;> (try split) <;> simp
+    rcases hp : toCBoolHand v with ⟨x0, err⟩
+    rw [hp] at hx
+    simp only at hx
+    simp only [argCheck_bool T hk x0 hx]
+    by_cases h1 : x0 = 1 <;> cases err <;> simp [h1]
+  · simp [apiArg, apiArgHand, hk]
+  · simp [apiArg, apiArgHand, hk]
 
 end CffiVerif.IntPaths
